@@ -892,9 +892,9 @@ func (r *runningStep) executeSubWorkflows(input executeInput) ([]any, map[int]st
 		input := input
 		go func() {
 			defer func() {
+				verifhook.Emit("FItem", "obj", r, "i", i, "op", "release")
 				select {
 				case <-sem:
-					verifhook.Emit("FItem", "obj", r, "i", i, "op", "release")
 				case <-r.ctx.Done(): // Must not deadlock if closed early.
 				}
 				wg.Done()
